@@ -185,12 +185,12 @@ def run_harness_parallel(ck, cmd, n, procs, seed, extra=(), tag="l1"):
     return ok, cases, tail
 
 
-def load_corpus(ck, cmd, pid, fname, base):
+def load_corpus(ck, cmd, pid, fname, base, extra=()):
     corpus = os.path.join(os.path.dirname(os.path.dirname(__file__)), "corpus", pid, fname)
     if not os.path.exists(corpus):
         return []
     outp = os.path.join(ck.work, "corpus_" + fname)
-    rc, out = ck.go_run(cmd, ["--cases", corpus, "--out", outp])
+    rc, out = ck.go_run(cmd, list(extra) + ["--cases", corpus, "--out", outp])
     if rc != 0:
         ck.obligation("corpus %s/%s ran" % (pid, fname), False, out[-1500:])
         return []
@@ -307,3 +307,193 @@ def coverage_level1(ck, res):
     ck.extra.setdefault("input_distribution", {}).update({"script_classes": hist, "service_kinds": kinds, "operation_kinds": opk,
                                                            "rows_submitted": sum(c.get("rows", 0) for c in cases)})
     ck.add_samples([{"svcs": c["svcs"], "ops": c["ops"][:6], "obs": (c.get("obs") or [])[:6]} for c in cases[:3]])
+
+
+# ---------------------------------------------------------------------------------------------- level 2 (HTTP handlers)
+L2KINDS = ["series", "samples", "tags", "spans", "profile"]
+
+
+def compress(rids):
+    out = []
+    for x in rids:
+        if out and out[-1][0] + out[-1][1] == x:
+            out[-1][1] += 1
+        else:
+            out.append([x, 1])
+    return out
+
+
+def tbl_coq(kind, rids):
+    return "(tbl %s %s)" % (KIND[kind], runs(compress(rids or [])))
+
+
+def items_coq(items):
+    l = []
+    for it in (items or []):
+        if it.get("err"):
+            l.append("IError")
+        else:
+            l.append("IChunk %s" % coq_list(["(%d, %s, %s, (%d)%%Z)" % (s["g"], KIND[s["kind"]], tbl_coq(s["kind"], s.get("rids")), max(s.get("sz", 1), 1))
+                                             for s in (it.get("chunk") or [])]))
+    return coq_list(l)
+
+
+def handler_reqs_coq(items):
+    l = []
+    for it in (items or []):
+        for s in (it.get("chunk") or []):
+            l.append("(%s, %s)" % (KIND[s["kind"]], tbl_coq(s["kind"], s.get("rids"))))
+    return coq_list(l)
+
+
+def block_is_table(e):
+    return not e.get("counts") and all(r >= 0 for r in (e.get("rids") or []))
+
+
+def case2_to_coq(c):
+    ops = []
+    for o in c["ops"]:
+        if o["t"] == "http":
+            ops.append("O2Http %s" % items_coq(c["reqs"][o.get("h", 0)].get("items")))
+        elif o["t"] == "plan":
+            ops.append("O2Plan %d" % o["s"])
+        elif o["t"] == "send":
+            ops.append("O2Send %d" % o["s"])
+        elif o["t"] == "ret":
+            ops.append("O2Ret %d %s" % (o["s"], b(o.get("ok"))))
+    obs = []
+    for evs in (c.get("obs") or []):
+        l = []
+        for e in (evs or []):
+            t = e["t"]
+            if t == "dial":
+                l.append("EDial %d %s" % (e["s"], b(e["ok"])))
+            elif t == "swap":
+                l.append("ESwap %d" % e["s"])
+            elif t == "send":
+                k = L2KINDS[e["s"]]
+                if block_is_table(e):
+                    l.append("ESend %d %s %s" % (e["s"], KIND[k], tbl_coq(k, e.get("rids"))))
+                else:
+                    l.append("ESend %d %s []" % (e["s"], KIND[k]))
+            elif t == "done":
+                l.append("EDone %d %s" % (e["s"], b(e["ok"])))
+            elif t == "answer":
+                h = e.get("h", 0)
+                l.append("EAnswer %d %s %s" % (h, handler_reqs_coq(c["reqs"][h].get("items")), b(e["ok"])))
+        obs.append(coq_list(l))
+    cfg = coq_list(["(%s, %d, 0%%Z)" % (KIND[k], i) for i, k in enumerate(L2KINDS)])
+    dials = coq_list([coq_list([b(x) for x in (d or [])]) for d in (c.get("dials") or [[] for _ in L2KINDS])])
+    return ("{| d_id := (%d)%%Z; d_cfg := %s; d_attempts := %d%%N; d_dials := %s; d_drained := %s; d_handlers := %d;\n     d_ops := %s;\n     d_obs := %s |}"
+            % (c["id"], cfg, c.get("attempts", 1), dials, b(c.get("drained")), len(c.get("reqs") or []), coq_list(ops), coq_list(obs)))
+
+
+def eval_cases2(ck, name, cases):
+    txt = (HEADER + "Definition cases : list case2 := [\n  " + ";\n  ".join(case2_to_coq(c) for c in cases) + "].\n"
+           "Definition M := Eval vm_compute in mismatches2 cases.\nPrint M.\n"
+           "Definition V1 := Eval vm_compute in c01_violations2 cases.\nPrint V1.\n"
+           "Definition V2 := Eval vm_compute in c02_violations2 cases.\nPrint V2.\n")
+    rc, out = ck.coq_eval(name, txt)
+    if rc != 0:
+        return None, None, None, out
+    flat = " ".join(out.split())
+    m, v1, v2 = parse_ids(flat, "M"), parse_ids(flat, "V1"), parse_ids(flat, "V2")
+    if m is None or v1 is None or v2 is None:
+        return None, None, None, out
+    return m, v1, v2, out
+
+
+def run_level2(ck, pid):
+    n = ck.n(160, 3000)
+    procs = 8 if ck.quick() else 16
+    cases = load_corpus(ck, "ingest", pid, "http.jsonl", 80000000, extra=["--level", "2"])
+    ok, gen, tail = run_harness_parallel(ck, "ingest", n, procs, ck.seed + 7, extra=["--level", "2"], tag="l2")
+    if not ok:
+        ck.obligation("harness ingest (HTTP level) ran", False, tail)
+        return None
+    cases += gen
+    broken = [c for c in cases if c.get("err")]
+    good = [c for c in cases if not c.get("err")]
+    mism, v1, v2 = [], [], []
+    shards = [good[i:i + 60] for i in range(0, len(good), 60)]
+    from concurrent.futures import ThreadPoolExecutor
+    with ThreadPoolExecutor(max_workers=6) as ex:
+        results = list(ex.map(lambda ks: eval_cases2(ck, "%s_l2_%d" % (pid, ks[0]), ks[1]), enumerate(shards)))
+    for m, a, b2, out in results:
+        if m is None:
+            ck.obligation("HTTP-level cases evaluated inside Coq", False, out[-1500:])
+            return None
+        mism += m
+        v1 += a
+        v2 += b2
+    nontab = [c for c in good if any(e["t"] == "send" and not block_is_table(e) for l in (c.get("obs") or []) for e in (l or []))]
+    return {"cases": cases, "good": good, "broken": broken, "mism": mism, "v1": v1, "v2": v2, "nontab": nontab,
+            "byid": {c["id"]: c for c in cases}}
+
+
+def shrink2(ck, case, still_bad, budget=30):
+    cur = case
+    tries = 0
+    changed = True
+    while changed and tries < budget:
+        changed = False
+        for i in range(len(cur["ops"]) - 1, -1, -1):
+            if tries >= budget:
+                break
+            if cur["ops"][i]["t"] == "http":
+                continue            # handler numbers are positions: keep the pushes
+            cand = dict(cur)
+            cand["ops"] = cur["ops"][:i] + cur["ops"][i + 1:]
+            cand.pop("obs", None)
+            cand["drained"] = False
+            tries += 1
+            inp = os.path.join(ck.work, "shrink2_in.jsonl")
+            outp = os.path.join(ck.work, "shrink2_out.jsonl")
+            open(inp, "w").write(json.dumps(cand) + "\n")
+            rc, _ = ck.go_run("ingest", ["--level", "2", "--cases", inp, "--out", outp])
+            if rc != 0:
+                continue
+            try:
+                res = json.loads(open(outp).readline())
+            except ValueError:
+                continue
+            if res.get("err"):
+                continue
+            if still_bad(res):
+                cur = res
+                changed = True
+                break
+    return cur
+
+
+def nontrivial2(c):
+    evs = [e for l in (c.get("obs") or []) for e in (l or [])]
+    return (any(e["t"] == "done" and not e["ok"] for e in evs) and any(e["t"] == "answer" for e in evs)
+            and c.get("attempts", 0) >= 1)
+
+
+def coverage_level2(ck, res):
+    cases = res["cases"]
+    att, routes, opk, status = {}, {}, {}, {}
+    distinct = set()
+    for c in cases:
+        att[str(c.get("attempts"))] = att.get(str(c.get("attempts")), 0) + 1
+        for r in c.get("reqs") or []:
+            routes[r["route"]] = routes.get(r["route"], 0) + 1
+        for o in c["ops"]:
+            opk[o["t"]] = opk.get(o["t"], 0) + 1
+        for l in (c.get("obs") or []):
+            for e in (l or []):
+                if e["t"] == "answer":
+                    status[str(e.get("status"))] = status.get(str(e.get("status")), 0) + 1
+        if nontrivial2(c):
+            distinct.add(json.dumps([c["reqs"], c["ops"], c.get("attempts")], sort_keys=True))
+    ck.coverage["evaluations"] += len(cases)
+    ck.coverage["distinct_nontrivial"] += len(distinct)
+    ck.coverage["rule"] += ("HTTP scripts: the real PushStreamV2 (Loki JSON) and PushV2 (Zipkin JSON) handlers over five real services, RetryAttempts 0..3, "
+                            "1..4 pushes (one in ten with a body the parser rejects), 6..19 operations (push, PlanFlush, let a worker call Do, return of Do with success 2/5) then a drain; "
+                            "non-trivial = RetryAttempts >= 1, at least one failed INSERT and one answer; distinct by content. ")
+    ck.extra.setdefault("input_distribution", {}).update({"http_retry_attempts": att, "http_routes": routes, "http_operation_kinds": opk,
+                                                           "http_status_codes": status})
+    ck.add_samples([{"attempts": c.get("attempts"), "reqs": [{"route": r["route"], "items": r["items"]} for r in c["reqs"]][:2],
+                     "ops": c["ops"][:8], "obs": (c.get("obs") or [])[:8]} for c in cases[:2]], limit=5)
